@@ -60,7 +60,21 @@ func extremeMintParams(r *rand.Rand) minttypes.Params {
 }
 
 func applyExtreme(p minttypes.Params, r *rand.Rand) minttypes.Params {
-	switch r.Intn(7) {
+	switch r.Intn(10) {
+	case 7, 8, 9:
+		// a phase whose length in blocks (year coefficient x blocks per year) lies next to the one-block boundary:
+		// validation must reject exactly those that truncate to zero blocks
+		if p.BlocksPerYear > 0 {
+			i := 0
+			if r.Intn(3) == 0 {
+				i = r.Intn(len(p.Phases))
+			}
+			x := pick(r, []int64{40, 50, 51, 75, 99, 100, 101, 149, 150, 199}) // hundredths of a block
+			p.Phases[i].YearCoefficient = sdkmath.LegacyNewDecWithPrec(x, 2).QuoInt64(p.BlocksPerYear)
+			if r.Intn(2) == 0 && p.Phases[i].Inflation.IsZero() {
+				p.Phases[i].Inflation = sdkmath.LegacyMustNewDecFromStr("0.1")
+			}
+		}
 	case 5:
 		p.Phases[len(p.Phases)-1].YearCoefficient = sdkmath.LegacyMustNewDecFromStr("0.0001")
 	case 0:
